@@ -270,6 +270,52 @@ def gen_groups(rng, tier):
                     groups.append(dict(kind="npseq", signed=first[0], n_bits=first[1], n_frac=first[2],
                                        formats=[list(t) for t in seq], xs=part, shape=shape, layout=layout,
                                        dtype=dtype))
+    # --- array converters used after a pickle round trip / copy.copy / copy.deepcopy of the converter object
+    for how in ("pickle", "copy", "deepcopy"):
+        for s in (True, False):
+            for n in NP_BITS:
+                f = rng.choice([0, n // 2, rng.choice(fracs_all)])
+                xs = gen_values(rng, s, n, f, 30 if thorough else 14, nonfinite=False)
+                groups.append(dict(kind="np", signed=s, n_bits=n, n_frac=f, xs=xs, shape=[len(xs)], layout="c",
+                                   copy=how, nomodel=nomodel(n // 8 + (1 if s else 0))))
+                vs = gen_ints(rng, s, n, 12)
+                groups.append(dict(kind="npback", signed=s, n_bits=n, n_frac=f, vs=vs, shape=[len(vs)], layout="c",
+                                   dtype=("int%d" if s else "uint%d") % n, copy=how, nomodel=True))
+    # --- format parameters handed over as numpy scalars (np.bool_ for signed, numpy integers of every dtype for
+    #     n_frac, values at the dtype's limit included).  JUDGED: what the unchanged code handles -- signed as
+    #     np.bool_ everywhere; a numpy n_frac in float_to_fp and both array converters, and of a SIGNED dtype in
+    #     fp_to_float.  A numpy-typed n_bits, an unsigned n_frac in fp_to_float and a numpy n_frac in the deprecated
+    #     pair wrap in the parameter's own dtype in the unchanged code.  Coordinator's decision: OUTSIDE the domain
+    #     (the documented type of the format parameters is int); no /repo change, TYPED_PARAMS_REPAIRED stays False.
+    TYPED_PARAMS_REPAIRED = False
+    for dt in ("int8", "uint8", "int16", "uint16", "int32", "uint32", "int64", "uint64"):
+        bits, sg = int(dt.lstrip("uint")), not dt.startswith("u")
+        lim = (1 << (bits - 1)) - 1 if sg else (1 << bits) - 1
+        for n in NP_BITS:
+            s = rng.random() < 0.5
+            fl = [f for f in sorted(set([0, 3, bits - 1, bits, n - 1, n, 63, 64, 70] + ([-4] if sg else []))) if -lim - 1 <= f <= lim]
+            for f in (fl if thorough else rng.sample(fl, min(4, len(fl)))):
+                xs = gen_values(rng, s, n, f, 24 if thorough else 10, nonfinite=False)
+                pt = dict(n_frac=dt, signed=rng.choice([None, "bool_"]))
+                groups.append(dict(kind="fp", signed=s, n_bits=n, n_frac=f, xs=xs, ptypes=pt, nomodel=True))
+                groups.append(dict(kind="np", signed=s, n_bits=n, n_frac=f, xs=xs, shape=[len(xs)], layout="c",
+                                   ptypes=pt, nomodel=True))
+                vs = gen_ints(rng, s, n, 8)
+                groups.append(dict(kind="npback", signed=s, n_bits=n, n_frac=f, vs=vs, shape=[len(vs)], layout="c",
+                                   dtype=("int%d" if s else "uint%d") % n, ptypes=pt, nomodel=True))
+                if sg or TYPED_PARAMS_REPAIRED:
+                    groups.append(dict(kind="back", signed=s, n_bits=n, n_frac=f, vs=vs, ptypes=pt, nomodel=True))
+                sb = 1 if s else 0
+                if 0 <= f <= n - sb:
+                    ptd = pt if TYPED_PARAMS_REPAIRED else dict(signed="bool_")
+                    groups.append(dict(kind="fix", signed=s, n_bits=n, n_frac=f, xs=xs, ptypes=ptd, nomodel=True))
+                    groups.append(dict(kind="unfix", signed=s, n_bits=n, n_frac=f, ptypes=ptd, nomodel=True,
+                                       wv=[[v % (1 << n), v] for v in vs]))
+                if TYPED_PARAMS_REPAIRED and bits >= 8 and n <= lim:
+                    ptn = dict(n_bits=dt, n_frac=rng.choice([None, dt]))
+                    groups.append(dict(kind="fp", signed=s, n_bits=n, n_frac=f, xs=xs, ptypes=ptn, nomodel=True))
+                    groups.append(dict(kind="np", signed=s, n_bits=n, n_frac=f, xs=xs, shape=[len(xs)], layout="c",
+                                       ptypes=ptn, nomodel=True))
     # --- np.longdouble inputs (80-bit extended on this platform; the unchanged code is exact on them): values with
     #     more than 53 significant bits next to the steps of the scaled line and next to both range ends
     for s in (True, False):
@@ -483,6 +529,15 @@ def judge_fp(signed, n, f, x, out, who):
 
 
 def desc(g):
+    extra = ""
+    if g.get("ptypes"):
+        extra += " [parameters given as numpy scalars: %s]" % ", ".join("%s: np.%s" % kv for kv in sorted(g["ptypes"].items()) if kv[1])
+    if g.get("copy"):
+        extra += " [converter object after %s]" % g["copy"]
+    return _desc(g) + extra
+
+
+def _desc(g):
     return "%s(signed=%s, n_bits=%d, n_frac=%d)" % (
         {"fp": "float_to_fp", "np": "NumpyFloatToFixConverter", "fix": "float_to_fix", "unfix": "fix_to_float",
          "back": "fp_to_float/float_to_fp", "npback": "NumpyFixToFloatConverter",
@@ -822,6 +877,10 @@ def run(chk, args):
         "integer scalars of any width, except a SIGNED numpy word of a signed format's own width (not an unsigned word)",
         "np.longdouble inputs are judged only where numpy's longdouble is the 80-bit x87 format (the driver checks); "
         "they are oracle-only (the Coq model is binary64)",
+        "format parameters n_bits / n_frac are Python ints (their documented type); numpy scalars there are judged only "
+        "where the unchanged arithmetic does not leave their dtype (np.bool_ for signed everywhere; a numpy n_frac in "
+        "float_to_fp and both array converters, of a signed dtype in fp_to_float); a numpy-typed n_bits, an unsigned "
+        "numpy n_frac in fp_to_float and a numpy n_frac in the deprecated pair are outside the domain (coordinator's decision)",
         "NaN elements are outside the domain and are not sent to the array converter (their integer cast is platform-defined)"]
     import time
     t0 = time.time()
@@ -931,6 +990,8 @@ def run(chk, args):
         "converters under 8 ambient np.errstate settings; np.longdouble arrays and scalars (x87 80-bit) with more than 53 "
         "significant bits next to the steps of the scaled line and both range ends, judged against the exact value; the "
         "float result of the array way back must be a float array that does not share memory with the input words; "
+        "the array converters after pickle / copy / deepcopy of the converter; format parameters given as numpy scalars "
+        "(np.bool_, numpy integers of every dtype up to the dtype's limit) where the unchanged code handles them; "
         "a malformed-format stream. thorough tier: all n_frac in -4..70 for the numpy widths, 600 values per "
         "format, the model evaluated on every 4th format; exhaustive enumeration of every value of every 8-bit "
         "format (all n_frac; model + oracle) and of 16-bit formats (oracle) for the way back, scalar and array, and of "
